@@ -55,11 +55,11 @@ type Options struct {
 	// Connect, if set, serves p2p.Connect (outbound dials); default: always fails with ErrPeerBlocklisted
 	// (an error kind that has no side effect on the topology).
 	Connect func(ctx context.Context, addr ma.Multiaddr) (*p2p.Peer, error)
-	// OnDisconnect is told about every p2p.Disconnect the topology asks for (after the mock has
-	// delivered the Disconnected notification, as libp2p does).
-	OnDisconnect func(overlay boson.Address, reason string)
-	// DisconnectErr, if set, decides the error p2p.Disconnect returns.
-	DisconnectErr func(overlay boson.Address) error
+	// Disconnect, if set, serves p2p.Disconnect after the mock has delivered the Disconnected
+	// notification to the topology (libp2p notifies the topology from inside Disconnect too).
+	Disconnect func(overlay boson.Address, reason string) error
+	// Bootnodes to dial when no peer is connected (manage loop).
+	Bootnodes []ma.Multiaddr
 }
 
 // Rig is one Kad with its collaborators.
@@ -152,11 +152,8 @@ func New(t testing.TB, o Options) *Rig {
 			return nil, p2p.ErrPeerBlocklisted
 		}),
 		p2pmock.WithDisconnectFunc(func(overlay boson.Address, reason string) error {
-			if o.OnDisconnect != nil {
-				o.OnDisconnect(overlay, reason)
-			}
-			if o.DisconnectErr != nil {
-				return o.DisconnectErr(overlay)
+			if o.Disconnect != nil {
+				return o.Disconnect(overlay, reason)
 			}
 			return nil
 		}),
@@ -171,6 +168,7 @@ func New(t testing.TB, o Options) *Rig {
 		NodeMode:    mode,
 		BinMaxPeers: o.BinMaxPeers,
 		PruneFunc:   o.PruneFunc,
+		Bootnodes:   o.Bootnodes,
 	})
 	if err != nil {
 		t.Fatal(err)
@@ -185,31 +183,49 @@ func New(t testing.TB, o Options) *Rig {
 	return r
 }
 
-// Close releases the rig. A Kad whose manage loop was never started is not Close()d
-// (its Close waits 5 s for the loop to exit); its single idle blocker goroutine is left behind.
-func (r *Rig) Close(t testing.TB) {
+// Close releases the rig and returns the error of Kad.Close, if any. A Kad whose manage
+// loop was never started is not Close()d (its Close waits 5 s for the loop to exit); its
+// single idle blocker goroutine is left behind.
+func (r *Rig) Close(t testing.TB) error {
+	var err error
 	if r.opts.Start {
-		if err := r.Kad.Close(); err != nil {
-			t.Fatalf("kadrig: Kad.Close: %v", err)
-		}
+		err = r.Kad.Close()
 	}
 	if r.opts.Start || r.opts.FreshStores {
 		_ = r.db.Close()
 		_ = r.store.Close()
 	}
+	return err
 }
 
-// Underlay returns the (deterministic) underlay address used for an overlay.
+// StartLoop starts the manage loop of a rig that was built with FreshStores and without Start.
+func (r *Rig) StartLoop(t testing.TB) {
+	if !r.opts.FreshStores || r.opts.Start {
+		t.Fatal("kadrig: StartLoop needs a rig built with FreshStores and without Start")
+	}
+	r.opts.Start = true
+	if err := r.Kad.Start(context.Background()); err != nil {
+		t.Fatal(err)
+	}
+}
+
+// UnderlayOf is the (deterministic) underlay address the rigs use for an overlay.
+func UnderlayOf(overlay []byte) ma.Multiaddr {
+	m, err := ma.NewMultiaddr(fmt.Sprintf("/ip4/127.0.0.1/tcp/1634/dns/%x", overlay))
+	if err != nil {
+		panic(err)
+	}
+	return m
+}
+
+// Underlay returns the underlay address used for an overlay.
 func (r *Rig) Underlay(overlay []byte) ma.Multiaddr {
 	r.mu.Lock()
 	defer r.mu.Unlock()
 	if m, ok := r.under[string(overlay)]; ok {
 		return m
 	}
-	m, err := ma.NewMultiaddr(fmt.Sprintf("/ip4/127.0.0.1/tcp/1634/dns/%x", overlay))
-	if err != nil {
-		panic(err)
-	}
+	m := UnderlayOf(overlay)
 	r.under[string(overlay)] = m
 	return m
 }
